@@ -551,7 +551,7 @@ def impl_run(c):
             if su.probe.mid is not None:      # the check never called the source: the change follows it
                 ev, su.probe.mid = su.probe.mid, None
                 su.world.apply(ev)
-            info = {"raised": raised, "calls": [(n, s, k, (v if (n == "etag" or k == "exc") else None)) for n, s, k, v in su.probe.calls],
+            info = {"raised": raised, "calls": [(n, s, k, (v if (n == "etag" or k == "exc") else pol_id(v))) for n, s, k, v in su.probe.calls],
                     "same_obj": su.guard.policy is before["policy_obj"],
                     "policy_is_last_loaded": bool(su.probe.loaded_objs) and su.guard.policy is su.probe.loaded_objs[-1],
                     "new_loads": len(su.probe.loaded_objs) - before["n_loaded"],
@@ -657,6 +657,13 @@ def judge(chk, c, out, m_out):
         n_ld = sum(1 for x in calls if x[0] == "load")
         load_ok = [x for x in calls if x[0] == "load" and x[2] == "ok"]
         exc = [x for x in calls if x[2] == "exc"]
+        # --- a load that succeeds hands out the document the source holds at that moment (F22: an HTTP 304 after
+        #     an unparsable body "succeeded" with an older cached policy or with {})
+        for x in load_ok:
+            if x[1] is None or x[1][0] != "d" or x[3] != x[1][1]:
+                viol.append(("load() succeeded although the source holds no loadable document, or returned another "
+                             "document than the source holds: a broken source state replaced the active policy",
+                             {"step": ix, "source_holds": x[1], "load_returned": x[3]}))
         # --- the active policy is a loaded document, applied by the check that returns True
         if not info["policy_known"]:
             viol.append(("active policy is neither the initial one nor a document returned by a successful load",
